@@ -3,7 +3,7 @@
 
 Mirrors `Instrument.pack_bulk_out_header`, `pack_dev_dep_msg_out_header`,
 `pack_dev_dep_msg_in_header`, `unpack_dev_dep_resp_header`, `write_raw` and
-`read_raw` (including the `num` argument, the RIGOL quirk without its IEEE-block
+`read_raw` (including the `num` argument, the RIGOL quirk with its IEEE-block
 sub-quirk, and the Advantest quirk) statement by statement.  Python exceptions
 are values.  The two bulk endpoints are the environment:
 
@@ -28,6 +28,9 @@ inductive PyExc
   | structError     -- struct.error (value out of range / buffer too short)
   | usbTimeout      -- usb.core.USBError errno 110, re-raised after the abort sequence
   | usbError        -- usb.core.USBError, any other errno, re-raised
+  | usbtmcMismatch  -- UsbtmcException("Bulk-IN header does not match request") — only in a tree that checks the header
+  | indexError      -- IndexError  (`data[1]` in the RIGOL IEEE-block sub-quirk)
+  | valueError      -- ValueError  (`int(...)` in the RIGOL IEEE-block sub-quirk)
   | hang            -- the call never returns
   deriving DecidableEq, Repr
 
@@ -129,8 +132,11 @@ inductive Ev
 structure Cfg where
   mts       : Nat                    -- max_transfer_size
   termChar  : Option UInt8 := none   -- self.term_char
-  rigol     : Bool := false          -- rigol_quirk (rigol_quirk_ieee_block = False)
+  rigol     : Bool := false          -- rigol_quirk
   advantest : Bool := false          -- advantest_quirk
+  rigolIeee : Bool := false          -- rigol_quirk_ieee_block
+  checkHdr  : Bool := false          -- does this tree validate MsgID / bTag / bTagInverse of a Bulk-IN header?
+                                     -- (probed on the code under test on every run; the pinned tree does not)
   deriving Repr
 
 /-- `unpack_dev_dep_resp_header(resp)`: `(msgid, btag, btaginverse, transfer_size, transfer_attributes, data)`;
@@ -170,6 +176,69 @@ def reqStep (cfg : Cfg) (rs : RS) : RS × Option PyExc :=
       ({ rs with last, reqs := rs.reqs ++ [req], sizes := rs.sizes ++ [rs.readLen + HEADER_SIZE + 3] }, none)
   else ({ rs with sizes := rs.sizes ++ [rs.readLen + HEADER_SIZE + 3] }, none)
 
+def isSpace (b : UInt8) : Bool := b == 32 || (9 ≤ b.toNat && b.toNat ≤ 13)
+
+def isDigit (b : UInt8) : Bool := 48 ≤ b.toNat && b.toNat ≤ 57
+
+/-- digits with single underscores between them (CPython `PyLong_FromString`, base 10) -/
+def digitsU : Nat → Bool → Bytes → Option Nat
+  | acc, prev, [] => if prev then some acc else none
+  | acc, prev, c :: r =>
+    if isDigit c then digitsU (acc * 10 + (c.toNat - 48)) true r
+    else if c == 95 && prev then digitsU acc false r
+    else none
+
+/-- `int(b)` for a `bytes` object: surrounding ASCII white space, an optional sign, digits with single underscores;
+`none` = `ValueError` -/
+def pyIntBytes (b : Bytes) : Option Int :=
+  let b := b.dropWhile isSpace
+  let b := (b.reverse.dropWhile isSpace).reverse
+  match b with
+  | 45 :: r => (digitsU 0 false r).map (fun n => -(n : Int))
+  | 43 :: r => (digitsU 0 false r).map (fun n => (n : Int))
+  | _ => (digitsU 0 false b).map (fun n => (n : Int))
+
+/-- `x[:k]` for a possibly negative `k` -/
+def sliceTo (x : Bytes) (k : Int) : Bytes :=
+  if k ≥ 0 then x.take k.toNat else x.take (x.length - (-k).toNat)
+
+/-- RIGOL IEEE-block sub-quirk: the transfer size is taken from a `#<l><n>` block header at the start of the data -/
+def ieeeSize (cfg : Cfg) (data : Bytes) (ts : Nat) : Except PyExc Int :=
+  if cfg.rigolIeee && data.head? == some 35 then          -- data.startswith(b"#")
+    match data with
+    | _ :: x :: _ =>
+      if isDigit x then                                    -- l = int(chr(data[1]))
+        let l := x.toNat - 48
+        match pyIntBytes ((data.drop 2).take l) with       -- n = int(data[2:l+2])
+        | some n => .ok (n + l + 2)
+        | none => .error .valueError
+      else .error .valueError
+    | _ => .error .indexError
+  else .ok ts
+
+/-- what `read_raw` does with one received packet: header parse (not for the 2nd.. packet of a RIGOL device), quirks;
+yields the new `read_data`, `eom`, and the loop variables `transfer_size`, `data` -/
+def absorb (cfg : Cfg) (rs : RS) (resp : Bytes) : Except PyExc (Bytes × Bool × Nat × Bytes) :=
+  if cfg.rigol && !rs.readData.isEmpty then
+    let rd := rs.readData ++ resp
+    if rd.length ≥ rs.ts then .ok (rd.take rs.ts, true, rs.ts, rs.data) else .ok (rd, false, rs.ts, rs.data)
+  else
+    match unpackResp resp with
+    | none => .error .structError
+    | some (m, t, ti, ts, a, d) =>
+      if cfg.checkHdr && !cfg.advantest
+          && (m.toNat != MSGID_REQUEST_DEV_DEP_MSG_IN || t.toNat != rs.last || ti.toNat != invTag t.toNat) then
+        .error .usbtmcMismatch
+      else if cfg.rigol then
+        match ieeeSize cfg d ts with
+        | .error e => .error e
+        | .ok tsI =>
+          let rd := rs.readData ++ d
+          if (rd.length : Int) ≥ tsI then .ok (sliceTo rd tsI, true, tsI.toNat, d) else .ok (rd, false, tsI.toNat, d)
+      else
+        -- only consider the EOM flag when transfer_size bytes were received
+        .ok (rs.readData ++ d, (if d.length ≥ ts then a.toNat % 2 == 1 else false), ts, d)
+
 /-- the `while not eom` loop of `read_raw`, one script entry per iteration -/
 def readLoop (cfg : Cfg) : RS → List Ev → ROut
   | rs, [] =>
@@ -183,22 +252,9 @@ def readLoop (cfg : Cfg) : RS → List Ev → ROut
       match ev with
       | .ioErr => { rs, left := script, res := .error .usbError }
       | .data resp =>
-        -- parse the header (not for the 2nd.. packet of a RIGOL device)
-        let parsed : Option (Nat × UInt8 × Bytes) :=
-          if cfg.rigol && !rs.readData.isEmpty then some (rs.ts, 0, rs.data)
-          else match unpackResp resp with
-            | some (_, _, _, ts, a, d) => some (ts, a, d)
-            | none => none
-        match parsed with
-        | none => { rs, left := script, res := .error .structError }
-        | some (ts, attr, data) =>
-          let (readData, eom) : Bytes × Bool :=
-            if cfg.rigol then
-              let rd := if !rs.readData.isEmpty then rs.readData ++ resp else rs.readData ++ data
-              if rd.length ≥ ts then (rd.take ts, true) else (rd, false)
-            else
-              -- only consider the EOM flag when transfer_size bytes were received
-              (rs.readData ++ data, if data.length ≥ ts then attr.toNat % 2 == 1 else false)
+        match absorb cfg rs resp with
+        | .error e => { rs, left := script, res := .error e }
+        | .ok (readData, eom, ts, data) =>
           let rs := { rs with readData, ts, data }
           if cfg.advantest then { rs, left := script, res := .ok readData }
           else
@@ -254,14 +310,17 @@ def Dev.run (d : Dev) : List Bytes → Option Dev
 /-- Host side of USBTMC 1.0 §3.3 as a plain function of the Bulk-IN transfers: the data of a transfer are the bytes after
 the 12-byte header, at most TransferSize of them; the message is complete at the first transfer that carries all of its
 TransferSize bytes and has EOM set; a transfer shorter than a header, an endpoint error or running out of transfers is
-an error (`none`). -/
-def hostSpec : List Ev → Bytes → Option Bytes
-  | [], _ => none
-  | .ioErr :: _, _ => none
-  | .data t :: rest, acc =>
+an error (`none`).  With `check`, a header whose MsgID is not DEV_DEP_MSG_IN, whose bTag is not the tag of the request it
+answers (`last` = tag before that request) or whose bTagInverse is not the complement is an error too (Table 8). -/
+def hostSpec (check : Bool) : Nat → List Ev → Bytes → Option Bytes
+  | _, [], _ => none
+  | _, .ioErr :: _, _ => none
+  | last, .data t :: rest, acc =>
     match unpackResp t with
     | none => none
-    | some (_, _, _, ts, a, d) =>
-      if d.length ≥ ts ∧ a.toNat % 2 = 1 then some (acc ++ d) else hostSpec rest (acc ++ d)
+    | some (m, tg, ti, ts, a, d) =>
+      if check && (m.toNat != MSGID_REQUEST_DEV_DEP_MSG_IN || tg.toNat != nextTag last || ti.toNat != invTag tg.toNat) then none
+      else if d.length ≥ ts ∧ a.toNat % 2 = 1 then some (acc ++ d)
+      else hostSpec check (nextTag last) rest (acc ++ d)
 
 end QmiModel.Usbtmc
